@@ -265,7 +265,7 @@ theorem C05_insert_then_remove_rational (c c1 c2 : Curve) (nodes : List Rat) (pt
                           split at hns
                           · simp only [Option.some.injEq] at hns; subst hns; exact knots_ne_nil c.kv g0
                           · cases hns
-                        obtain ⟨sT, hTM⟩ := fit_left_inverse c.kv k M T E _ hfn hrep g0 g1 hc0 hc1 hTE
+                        obtain ⟨sT, hTM⟩ := fit_left_inverse c.kv k M T E _ hfn hrep.toW g0 g1 hc0 hc1 hTE
                         -- shapes and dimensions
                         have lws1 : (matVec M ws).length = k.npts := by rw [matVec_length, hrep.shaped.1]
                         have lwp : (Curve.weighted ws pts).length = c.kv.npts := by simp [Curve.weighted, hwl, hlen]
